@@ -5,3 +5,13 @@ Open Scope Z_scope.
 Theorem C08_udp_fidelity : forall i t, run_history i = Some t -> udp_ok (statics i) t = true.
 Proof. exact udp_holds. Qed.
 Print Assumptions C08_udp_fidelity.
+
+From GV Require Proofs.LoopDataExamples.
+(* Non-vacuity: the example run contains a datagram callback and a sendto; the checker accepts it and rejects
+   the history without that sendto. *)
+Example C08_nonvacuous :
+  udp_ok (statics LoopDataExamples.ex_input) LoopDataExamples.ex_history = true /\
+  udp_ok (statics LoopDataExamples.ex_input)
+         (LoopDataExamples.drop_first (LoopDataExamples.is_out "sys" "sendto") LoopDataExamples.ex_history) = false.
+Proof. split; [exact (proj2 (proj2 LoopDataExamples.ex_checkers))|exact LoopDataExamples.ex_udp_rejects]. Qed.
+Print Assumptions C08_nonvacuous.
